@@ -16,15 +16,15 @@ UUIDISH_NAME = "deadbeefdeadbeefdeadbeefdeadbeef"      # a rule NAME that uuid.U
 KEYWORDS = {"not", "and", "or", "all", "any", "of", "1"}
 
 RNAMES = ["sel", "selection", "sel_a", "sel_b", "filter", "flt", "flt_a", "x1", "other"]
-RNAMES_HOSTILE = ["notepad", "android", "or_x", "ofx", "all_x", "them2", "1st", "_priv", "-d", "Not", "4",
+RNAMES_HOSTILE = ["not-local", "all-hosts", "1-a", "notepad", "android", "or_x", "ofx", "all_x", "them2", "1st", "_priv", "-d", "Not", "4",
                   "_filt_aaaaaaaaaa_flt", "_filt_aaaaaaaaaa", "_f"]
 FNAMES = ["flt", "filter", "sel", "selection", "sel_a", "flt_a", "flt_b", "fp"]
-FNAMES_HOSTILE = ["notepad", "android", "order", "ofx", "all_x", "them2", "Them", "1st", "4", "_u", "-d", "a-b",
+FNAMES_HOSTILE = ["not-local", "all-hosts", "1-a", "of-x", "any-thing", "or-else", "notepad", "android", "order", "ofx", "all_x", "them2", "Them", "1st", "4", "_u", "-d", "a-b",
                   "Not", "AND", "all", "any", "of", "1", "them", "Or"]
 RPATS = ["them", "*", "sel*", "*_a", "s*l*", "fl*", "*lt*", "x*", "sel_*"]
-RPATS_HOSTILE = ["_*", "_f*", "_filt_a*", "_p*", "*_flt", "not*", "1*"]
+RPATS_HOSTILE = ["_*", "_f*", "_filt_a*", "_p*", "*_flt", "not*", "or*", "all*", "1*"]
 FPATS = ["them", "*", "fl*", "flt_*", "*_a", "sel*", "*lt*", "f*", "s*"]
-FPATS_HOSTILE = ["_*", "1*", "*d", "not*", "all", "Th*"]
+FPATS_HOSTILE = ["_*", "1*", "*d", "not*", "or*", "and*", "all*", "of*", "any*", "all", "Th*"]
 
 
 # --------------------------------------------------------------------------------------------------
@@ -98,6 +98,61 @@ def mk_corr(title, refname):
     return {"title": title, "name": title + "_n",
             "correlation": {"type": "event_count", "rules": [refname], "group-by": ["u"], "timespan": "5m",
                             "condition": {"gte": 2}}}
+
+
+# --------------------------------------------------------------------------------------------------
+# documents that yield several rules: collection actions, shared objects
+def deep_update(dest, src):
+    for k, v in src.items():
+        if isinstance(v, dict):
+            d = dest.get(k)
+            dest[k] = deep_update(d if isinstance(d, dict) else {}, v)
+        else:
+            dest[k] = v
+    return dest
+
+
+def materialize(docs):
+    """{"$same_as": i} stands for the SAME dict object as docs[i]; {"$cond_of": i} as the value of
+    detection.condition stands for the SAME list object as docs[i]'s condition (JSON cannot say that)"""
+    out = []
+    for d in docs:
+        if "$same_as" in d:
+            out.append(out[d["$same_as"]])
+            continue
+        d = copy.deepcopy(d)
+        det = d.get("detection")
+        if isinstance(det, dict) and isinstance(det.get("condition"), dict) and "$cond_of" in det["condition"]:
+            det["condition"] = out[det["condition"]["$cond_of"]]["detection"]["condition"]
+        out.append(d)
+    return out
+
+
+def effective_docs(docs):
+    """the rule / filter documents a collection is made of, after the collection actions
+    (global: template merged over every following rule, template wins; reset; repeat: previous rule
+    updated with the document) - what 'the source documents' of a rule are, per rule, own copies"""
+    out, glob_, prev = [], {}, {}
+    for d in materialize(docs):
+        d = copy.deepcopy(d)
+        a = d.get("action")
+        if a is None:
+            if "correlation" in d or "filter" in d:
+                out.append(d)
+            else:
+                m = deep_update(d, copy.deepcopy(glob_))
+                out.append(copy.deepcopy(m))
+                prev = m
+        elif a == "global":
+            del d["action"]
+            glob_ = d
+            prev = copy.deepcopy(d)
+        elif a == "reset":
+            glob_ = {}
+        elif a == "repeat":
+            prev = deep_update(prev, d)
+            out.append(copy.deepcopy(prev))
+    return out
 
 
 LS_ATTRS = [None, "a", "b"]
@@ -259,6 +314,21 @@ def hostile_pairs():
     pair(["sel"], "sel", ["_u", "v"], "not 1 of them")              # underscore rule inside the filter
     pair(["sel"], "sel", ["_u", "v"], "all of *")
     pair(["a", "b"], "a) or (b", ["flt"], "not flt")                # unbalanced rule condition
+    # keyword directly followed by '-', '*' or a digit, lower and upper case, also colliding with a rule detection
+    pair(["sel", "not-local"], "sel and not-local", ["not-local"], "not not-local")
+    pair(["sel"], "sel", ["all-hosts"], "not all-hosts")
+    pair(["sel", "1-a"], "sel", ["1-a"], "not 1-a")
+    pair(["sel", "or-x"], "sel or or-x", ["or-x", "of-y"], "not (or-x or of-y)")
+    pair(["sel", "and-z", "any-q"], "sel", ["and-z", "any-q"], "not and-z and not any-q")
+    pair(["sel", "or_r", "orx"], "sel", ["or_f", "orx"], "not 1 of or*")
+    pair(["notx", "not1"], "notx", ["not1", "nota"], "all of not*")
+    pair(["sel", "all_r"], "sel", ["all_f", "any_f"], "not (1 of all* or any of any*)")
+    pair(["sel", "of1"], "sel", ["of1", "1x"], "not 1 of of* and not 1 of 1*")
+    pair(["sel", "NOT-x"], "sel", ["NOT-x", "And-y"], "not NOT-x and And-y")
+    pair(["sel", "Or-1"], "sel", ["Or-1", "ALL-2", "Any3", "OF4"], "not (Or-1 or ALL-2 or Any3 or OF4)")
+    pair(["sel", "any1", "12"], "sel", ["any1", "all2", "of3", "12", "not4", "and5", "or6"],
+         "not (any1 or all2 or of3 or 12) and not4 and and5 and or6")
+    pair(["sel", "Not9"], "sel", ["Not9", "OR8"], "not 1 of Not* and not 1 of OR*")
     pair(["sel"], "sel", ["notepad"], "not notepad")                # operator-word prefixes
     pair(["notepad"], "notepad", ["flt"], "not flt")
     pair(["_filt_aaaaaaaaaa_flt", "sel"], "sel", ["flt"], "not flt")   # prefix in use (forced draw)
@@ -275,11 +345,86 @@ def hostile_pairs():
     return out
 
 
+def shared_pairs(rng=None, n=0):
+    """several rules out of one document / one list object, filters that target several of them"""
+    out = []
+    ls = {"category": "a", "product": "b"}
+    flt = lambda j, k, cond, rules="any": mk_filter("f%d" % j, {"category": "a"}, {"flt": det_body(k)}, cond, rules)
+    for listy in (True, False):
+        cond = (lambda c: [c]) if listy else (lambda c: c)
+        # action: global with the condition in the template
+        g = {"action": "global", "logsource": ls, "detection": {"sel": det_body(0), "condition": cond("sel")}}
+        r1 = {"title": "r0", "id": IDS[0], "name": "rule_0", "detection": {"a": det_body(1)}}
+        r2 = {"title": "r1", "id": IDS[1], "name": "rule_1", "detection": {"b": det_body(2)}}
+        r3 = {"title": "r2", "detection": {"c": det_body(3)}}
+        out.append(([g, r1, r2, flt(0, 4, "not flt")], 5))
+        out.append(([g, r1, r2, r3, flt(0, 4, "not flt"), flt(1, 5, "not 1 of fl*", ["rule_0", "rule_1"])], 6))
+        g2 = {"action": "global", "logsource": ls, "detection": {"sel": det_body(0), "condition": cond("1 of them")}}
+        out.append(([g2, r1, r2, flt(0, 4, "not 1 of them")], 5))
+        g3 = {"action": "global", "logsource": ls, "detection": {"sel": det_body(0), "condition": ["sel", "not sel"]}}
+        out.append(([g3, r1, r2, flt(0, 4, "not flt")], 5))
+        out.append(([g, r1, {"action": "reset"}, mk_rule("r1", ls, {"b": det_body(2)}, ["b"], IDS[1], "rule_1"), flt(0, 4, "not flt")], 5))
+        # action: repeat
+        full = {"title": "r0", "name": "rule_0", "logsource": ls, "detection": {"sel": det_body(0), "condition": cond("sel")}}
+        rep = {"action": "repeat", "title": "r1", "name": "rule_1", "detection": {"x": det_body(1)}}
+        rep2 = {"action": "repeat", "title": "r2", "name": "rule_2", "detection": {"y": det_body(2), "condition": cond("sel and y")}}
+        out.append(([full, rep, flt(0, 4, "not flt")], 5))
+        out.append(([full, rep, rep2, flt(0, 4, "not flt"), flt(1, 5, "flt", ["rule_1", "rule_2"])], 6))
+        # one dict object twice; one condition list object in two documents
+        one = mk_rule("r0", ls, {"sel": det_body(0)}, ["sel"], IDS[0], "rule_0")
+        one["detection"]["condition"] = cond("sel")
+        out.append(([one, {"$same_as": 0}, flt(0, 4, "not flt")], 5))
+        if listy:
+            two = mk_rule("r1", ls, {"sel": det_body(1), "t": det_body(2)}, ["sel"], IDS[1], "rule_1")
+            two["detection"]["condition"] = {"$cond_of": 0}
+            out.append(([one, two, flt(0, 4, "not flt")], 5))
+            out.append(([one, two, flt(0, 4, "not flt"), flt(1, 5, "not 1 of them")], 6))
+    # random ones
+    for _ in range(n):
+        ctr = Ctr()
+        common = rng.sample(RNAMES, rng.randint(1, 2))
+        cdets = {nm: det_body(ctr.next()) for nm in common}
+        nr = rng.choice([2, 2, 3])
+        owns = [rng.sample([x for x in RNAMES + RNAMES_HOSTILE[:6] if x not in common], rng.randint(0, 2)) for _ in range(nr)]
+        allnames = common + [x for o in owns for x in o]
+        conds = [spell(gen_expr(rng, common, own_pats(rng, allnames, RPATS), rng.choice([0, 1, 2])), rng)
+                 for _ in range(rng.choice([1, 1, 2]))]
+        cval = conds if (len(conds) > 1 or rng.random() < 0.8) else conds[0]
+        shape = rng.choice(["global", "global", "repeat", "same", "condlist"])
+        docs = []
+        if shape == "global":
+            docs.append({"action": "global", "logsource": ls, "detection": dict(cdets, condition=cval)})
+            for i in range(nr):
+                docs.append({"title": "r%d" % i, "name": "rule_%d" % i, "detection": {nm: det_body(ctr.next()) for nm in owns[i]} or dict(cdets)})
+        elif shape == "repeat":
+            docs.append({"title": "r0", "name": "rule_0", "logsource": ls, "detection": dict(cdets, condition=cval)})
+            for i in range(1, nr):
+                docs.append({"action": "repeat", "title": "r%d" % i, "name": "rule_%d" % i,
+                             "detection": {nm: det_body(ctr.next()) for nm in owns[i]}})
+        elif shape == "same":
+            docs.append({"title": "r0", "name": "rule_0", "logsource": ls, "detection": dict(cdets, condition=cval)})
+            docs += [{"$same_as": 0}] * (nr - 1)
+        else:
+            docs.append({"title": "r0", "name": "rule_0", "logsource": ls, "detection": dict(cdets, condition=cval if isinstance(cval, list) else [cval])})
+            for i in range(1, nr):
+                d = dict(cdets)
+                d.update({nm: det_body(ctr.next()) for nm in owns[i]})
+                docs.append({"title": "r%d" % i, "name": "rule_%d" % i, "logsource": ls, "detection": dict(d, condition={"$cond_of": 0})})
+        for j in range(rng.choice([1, 1, 2])):
+            fn = rng.sample(FNAMES + FNAMES_HOSTILE[:6], rng.randint(1, 2))
+            fd = {nm: det_body(ctr.next()) for nm in fn}
+            fc = spell(gen_expr(rng, fn, own_pats(rng, fn, FPATS), rng.choice([0, 1, 1]), pnot=0.5), rng)
+            refs = rng.choice(["any", "any", ["rule_0", "rule_1"], ["rule_1"], []])
+            docs.append(mk_filter("f%d" % j, rng.choice([{"category": "a"}, ls, {"product": "b"}]), fd, fc, refs))
+        out.append((docs, ctr.k))
+    return out
+
+
 FORCED = ["aaaaaaaaaa", "aaaaaaaaaa", "aaaaaaaaaa", "bbbbbbbbbb", "bbbbbbbbbb", "cccccccccc"]
 
 
 def gen_apply(tier, rng):
-    pairs = small_pairs() + ls_pairs() + hostile_pairs()
+    pairs = small_pairs() + ls_pairs() + hostile_pairs() + shared_pairs(rng, 30 if tier == "quick" else 250)
     n = 100 if tier == "quick" else 800
     for i in range(n):
         pairs.append(gen_pair(rng, hostile=(i % 2 == 1)))
@@ -411,27 +556,33 @@ def d6_sensitive(docs):
     return any(w.startswith(op) and w != op for w in words for op in ("not", "and", "or"))
 
 
+def by_title(views, rules):
+    """the view of every rule document: k-th document with a title <-> k-th view with that title"""
+    pools = {}
+    for v in views:
+        pools.setdefault(v["title"], []).append(v)
+    return [pools[d["title"]].pop(0) for d in rules]
+
+
 def apply_to_coq(c, r):
     if "exc" in r:
         return None
-    docs = c["docs"]
-    rules = [d for d in docs if "filter" not in d]
-    filters = [d for d in docs if "filter" in d]
-    src = {v["title"]: v for v in r["src"]}
     try:
+        docs = effective_docs(c["docs"])
+        rules = [d for d in docs if "filter" not in d]
+        filters = [d for d in docs if "filter" in d]
         runs = []
         for spec_, res in zip(c["runs"], r["runs"]):
-            out = {v["title"]: v for v in res["out"]}
             runs.append("{| pr_collect := %s; pr_draws := %s; pr_out := %s |}" % (
                 cbool(bool(spec_.get("collect"))), clist(cs(d) for d in res["draws"]),
-                clist(c_view(out[d["title"]]) for d in rules)))
+                clist(c_view(v) for v in by_title(res["out"], rules))))
         return ("{| pc_rules := %s; pc_filters := %s; pc_src := %s; pc_ftrees := %s; pc_nobj := %s; pc_d6 := %s; "
                 "pc_runs := %s |}" % (
                     clist(c_rule(d) for d in rules), clist(c_filter(d) for d in filters),
-                    clist(c_view(src[d["title"]]) for d in rules),
+                    clist(c_view(v) for v in by_title(r["src"], rules)),
                     clist(c_outcome(t) for t in r["ftrees"]),
-                    cnat(c["nobj"]), cbool(d6_sensitive(docs)), clist(runs)))
-    except (ValueError, KeyError, AssertionError):
+                    cnat(c["nobj"]), cbool(False), clist(runs)))
+    except (ValueError, KeyError, AssertionError, IndexError):
         return None
 
 
@@ -451,7 +602,7 @@ def selector_patterns(c):
 
 
 def classify(c, r):
-    docs = c["docs"]
+    docs = effective_docs(c["docs"])
     rules = [d for d in docs if "detection" in d]
     filters = [d for d in docs if "filter" in d]
     fnames = [n for f in filters for n in f["filter"] if n not in ("condition", "rules")]
@@ -492,6 +643,15 @@ def mutate_apply(c, rng):
     """neighbours: other filter conditions / names on the same rules"""
     out = []
     docs = c["docs"]
+    if any("action" in d or "$same_as" in d or "$cond_of" in json.dumps(d) for d in docs):
+        # rules out of one document: neighbours keep the shape, vary the filters
+        for i, d in enumerate(docs):
+            if "filter" in d:
+                for cond, rules in [("not flt2", "any"), ("flt2", "any"), ("not 1 of them", "any")]:
+                    nd = copy.deepcopy(docs)
+                    nd[i] = mk_filter(d["title"], d["logsource"], {"flt2": det_body(c["nobj"])}, cond, rules)
+                    out.append(dict(c, docs=nd, nobj=c["nobj"] + 1))
+        return out
     for i, d in enumerate(docs):
         if "filter" not in d:
             continue
@@ -521,7 +681,12 @@ def mutate_apply(c, rng):
 
 def stratum(c, r):
     nf = sum(1 for d in c["docs"] if "filter" in d)
-    return "%d filter(s), %d runs" % (nf, len(c["runs"]))
+    shape = "plain"
+    if any(d.get("action") in ("global", "repeat") for d in c["docs"]):
+        shape = "collection actions"
+    elif any("$same_as" in d for d in c["docs"]) or "$cond_of" in json.dumps(c["docs"]):
+        shape = "shared objects"
+    return "%s, %d filter(s), %d runs" % (shape, nf, len(c["runs"]))
 
 
 REQ = ["Base.Chars", "Base.Outcome", "Model.FCondParse", "Model.FCond", "Model.Filter", "Spec.FilterSpec", "Run.C11run"]
@@ -533,15 +698,17 @@ PROPERTY = Property(
     suites=[SUITE],
     rule="(rule set, filter set) pairs: exhaustive 8x9 rule/filter conditions over overlapping names {sel, flt} on both sides; "
          "all 17x17 log-source pairs over category/product/service in {absent,a,b}; 17 ways of writing filter.rules x 5 id/name settings; "
-         "one fixed pair per defect class; random pairs (1-3 rules, 0-3 stacked filters, conditions with identifiers/not/and/or/selectors "
+         "one fixed pair per defect class incl. filter/rule names and patterns that are a rewrite keyword followed by '-', '*' or a digit (both cases, colliding names); "
+         "rules that come out of one document or share one condition list object (action: global / reset / repeat, the same dict twice, one list in two "
+         "documents; list- and string-valued conditions) with filters targeting several of them, judged per rule against the documents after the collection "
+         "actions (props effective_docs); random pairs (1-3 rules, 0-3 stacked filters, conditions with identifiers/not/and/or/selectors "
          "incl. 'them' and prefix/suffix patterns, hostile names: operator/keyword prefixes, digit/underscore/dash initial, keyword names, "
          "a name that is itself a '_filt_..' prefix; correlation rules; shuffled document order); each pair under 20 random.seed values, "
          "one forced draw sequence with repeated values, and (every 7th) collect_filters=True. non-trivial = some filter applies to some rule; "
          "distinct by case hash",
     assumptions=["uuid.UUID(text) is computed by the harness and handed to the model (not modelled)",
                  "the condition reader of the model is the C02 model (copied as Model/FCondParse.v, Model/FCond.v), i.e. the grammar "
-                 "after the Keyword repair of D6; cases containing a word that begins with an operator word are compared on detection "
-                 "maps and condition strings only (flag cs_d6) as long as that repair is not in the tree under test",
+                 "after the Keyword repair of D6, which is in the tree under test (flag cs_d6 is always false now)",
                  "Python re.sub with the fixed pattern [a-zA-Z0-9*_-]+ is modelled by a direct scanner (Model/Filter.v rw), validated by the "
                  "correspondence only",
                  "detections are single items d<k>: <k>; sharing of detection objects between rules (D27) is outside this property's model"],
